@@ -45,6 +45,11 @@ type duplexHTTPCall struct {
 	request         *http.Request
 	response        *http.Response
 
+	// closed by the first CloseRead: the call no longer needs to watch its
+	// context.
+	readClosed    chan struct{}
+	readCloseOnce sync.Once
+
 	errMu sync.Mutex
 	err   error
 }
@@ -72,6 +77,7 @@ func newDuplexHTTPCall(
 		requestBodyWriter: pipeWriter,
 		request:           request,
 		responseReady:     make(chan struct{}),
+		readClosed:        make(chan struct{}),
 	}
 	if err != nil {
 		// We can't construct a request, so we definitely can't send it over the
@@ -161,6 +167,14 @@ func (d *duplexHTTPCall) Read(data []byte) (int, error) {
 	verifYield("read.body")
 	n, err := d.response.Body.Read(data)
 	verifYield("read.done")
+	if err != nil && !errors.Is(err, io.EOF) {
+		// If the call has already failed - for example because its context ended
+		// and SetError closed the request body under the transport - that first
+		// error is the one to report.
+		if stored := d.getError(); stored != nil {
+			return n, stored
+		}
+	}
 	// A body read that fails because the call's context ended must surface as
 	// canceled or deadline_exceeded, whatever layer reports it.
 	return n, wrapIfContextError(wrapIfRSTError(err))
@@ -168,6 +182,7 @@ func (d *duplexHTTPCall) Read(data []byte) (int, error) {
 
 func (d *duplexHTTPCall) CloseRead() error {
 	d.BlockUntilResponseReady()
+	d.readCloseOnce.Do(func() { close(d.readClosed) })
 	verifYield("closeread")
 	if d.response == nil {
 		return nil
@@ -268,6 +283,18 @@ func (d *duplexHTTPCall) makeRequest() {
 		return
 	}
 	d.response = response
+	if done := d.ctx.Done(); done != nil {
+		// The transport may be blocked reading the request body from our pipe,
+		// where it can't see that the context has ended. Closing the pipe
+		// unblocks it, and with it any pending read of the response body.
+		go func() {
+			select {
+			case <-done:
+				d.SetError(d.ctx.Err())
+			case <-d.readClosed:
+			}
+		}()
+	}
 	if err := d.validateResponse(response); err != nil {
 		d.SetError(err)
 		return
